@@ -10,6 +10,7 @@ from ..propagators.dmevolution import DensityMatrixEvolution
 from ..hilbertspace.operators import ReducedDensityMatrix
 from ..hilbertspace.operators import UnityOperator
 from ...core.units import kB_int
+from ...core.managers import energy_units
 from ..corfunctions.correlationfunctions import CorrelationFunction
 
 class KTHierarchy:
@@ -131,9 +132,12 @@ class KTHierarchy:
         for ii in range(self.nbath):
             self.gamma[ii] = 1.0/self.sbi.get_correlation_time(ii)
             
+        # reorganization energies enter the equations in internal units,
+        # whatever energy units are current when the hierarchy is created
         self.lam = numpy.zeros(self.nbath, dtype=REAL)
-        for ii in range(self.nbath):
-            self.lam[ii] = self.sbi.get_reorganization_energy(ii)
+        with energy_units("int"):
+            for ii in range(self.nbath):
+                self.lam[ii] = self.sbi.get_reorganization_energy(ii)
             
         self.temp = self.sbi.get_temperature()
         self.kBT = self.temp*kB_int
